@@ -681,6 +681,61 @@ def _with_handler_prefix():
 
 out["with_handler_prefix"] = _with_handler_prefix()
 
+# ---------------------------------------------------------------- dis.stack_effect of the call opcodes (what a decoder that asks dis would be told)
+out["call_stack_effects"] = {nm: [dis.stack_effect(dis.opmap[nm], k) for k in range(4)] for nm in ("CALL_FUNCTION", "CALL_METHOD", "CALL", "PRECALL", "CALL_FUNCTION_KW") if nm in dis.opmap}
+
+# ---------------------------------------------------------------- how many "fast locals" slots a frame has, for several code-object shapes
+def _localsplus_vectors():
+    """observed through frame.__sizeof__() (slots = locals-plus + value stack, in words, above a constant header that is
+    calibrated with a function that has no locals at all)"""
+    def zero():
+        return sys._getframe()
+
+    def plain(a, b):
+        c = a
+        return sys._getframe()
+
+    def arg_captured(a, b):
+        def inner():
+            return a
+        return sys._getframe()
+
+    def local_cell(a):
+        x = a
+        def inner():
+            return x
+        return sys._getframe()
+
+    def make_free(y):
+        def with_free(a):
+            z = a
+            return sys._getframe(), y
+        return with_free
+
+    def mixed(a, b, c):
+        k = b
+        def inner():
+            return a, k
+        return sys._getframe()
+
+    def comp_capture(a):
+        fs = [lambda: i for i in (a,)]
+        return sys._getframe()
+
+    f0 = zero()
+    const = f0.__sizeof__() - 8 * f0.f_code.co_stacksize
+    frames = [plain(1, 2), arg_captured(1, 2), local_cell(1), make_free(0)(1)[0], mixed(1, 2, 3), comp_capture(1)]
+    out_ = []
+    for fr in frames:
+        co = fr.f_code
+        slots = (fr.__sizeof__() - const) // 8 - co.co_stacksize
+        out_.append({"name": co.co_name, "co_nlocals": co.co_nlocals, "co_varnames": list(co.co_varnames), "co_cellvars": list(co.co_cellvars), "co_freevars": list(co.co_freevars),
+                     "co_stacksize": co.co_stacksize, "co_argcount": co.co_argcount, "co_kwonlyargcount": co.co_kwonlyargcount, "co_posonlyargcount": co.co_posonlyargcount,
+                     "co_flags": co.co_flags, "slots": slots})
+    return out_
+
+out["localsplus_vectors"] = _localsplus_vectors()
+
 out["stdlib_module_names"] = sorted(getattr(sys, "stdlib_module_names", []))
 
 json.dump(out, sys.stdout)
